@@ -9,7 +9,8 @@ REQUIRED_THEOREMS = ['Via.hex_roundtrip', 'Via.dec_roundtrip', 'Via.std_names_pa
                      'Via.RT.requestLine_roundtrip', 'Via.RT.headerLine_roundtrip', 'Via.RT.headers_roundtrip', 'Via.RT.request_roundtrip',
                      'Via.RT.statusLine_roundtrip', 'Via.RT.response_roundtrip', 'Via.RT.response_roundtrip_nocontent',
                      'Via.RT.chunk_roundtrip', 'Via.RT.lastChunk_roundtrip', 'Via.RT.resp_chunked_head', 'Via.RT.resp_chunk_received',
-                     'Via.RT.resp_last_chunk_received']
+                     'Via.RT.resp_last_chunk_received', 'Via.RT.req_chunked_head', 'Via.RT.req_chunk_received',
+                     'Via.RT.req_chunk_concatenated', 'Via.RT.req_last_chunk_concatenated']
 LEVEL = "proof"
 LEVEL_TEXT = ('PROOF of the message-level round trips on the model (ViaProofs/Roundtrip.lean): for EVERY method / target / version / status / reason / list of header lines / body / chunk size / extension / trailer list that meets the stated validity conditions and every receiver configuration whose limits admit them, what tx_request::message, tx_response::message, chunk_header::to_string and last_chunk::to_string produce is received by request_receiver / response_receiver / rx_chunk as ONE valid message with exactly those components, leaving later bytes unread; plus hex/decimal number round trips and acceptance of every header name the library defines (regenerated table). The encoder model is tied to the real encoders, and the receiver model to the real receivers, by translation (Trans/*) and by differential loop-back of real encoder output through the real receivers.')
 RULE = ("requests / responses / chunks / last-chunks built through tx_request, tx_response, chunk_header and last_chunk from valid "
